@@ -302,14 +302,16 @@ func (hc *httpCache) HitForPass(ttl int) {
 	}
 	hc.expiredAt = nowUnix() + int64(ttl)
 	hc.status = StatusHitForPass
+	// 先保存至store再通知等待中的请求：否则等待的请求已得到结果后触发的purge，
+	// 有可能在store写入之前完成，之后写入的记录会使已清除的缓存重新生效
+	err := hc.saveToStore()
+	verifPoint("hfp.saved")
 	list := hc.chanList
 	hc.chanList = nil
 	for _, ch := range list {
 		ch <- waitResult{status: StatusHitForPass}
 	}
 	verifPoint("hfp.released")
-	err := hc.saveToStore()
-	verifPoint("hfp.saved")
 	if err != nil {
 		log.Default().Error("save cache to store fail",
 			zap.String("category", "hitForPass"),
@@ -331,14 +333,15 @@ func (hc *httpCache) Cacheable(resp *HTTPResponse, ttl int) {
 	hc.expiredAt = hc.createdAt + int64(ttl)
 	hc.status = StatusHit
 	hc.response = resp
+	// 先保存至store再通知等待中的请求(原因同HitForPass)
+	err := hc.saveToStore()
+	verifPoint("cacheable.saved")
 	list := hc.chanList
 	hc.chanList = nil
 	for _, ch := range list {
 		ch <- waitResult{status: StatusHit, response: resp}
 	}
 	verifPoint("cacheable.released")
-	err := hc.saveToStore()
-	verifPoint("cacheable.saved")
 	if err != nil {
 		log.Default().Error("save cache to store fail",
 			zap.String("category", "cacheable"),
